@@ -225,15 +225,22 @@ class AddField:
     def gen(rng, shape):
         r = _pick_res(rng, shape)
         new = 'af%d' % rng.randint(0, 999)
-        if new in _fnames(r):
+        if any(new in _fnames(x) for x in shape):
             return None
         typ, val = rng.choice([('integer', 5), ('string', 'k'), ('boolean', True), ('number', 2.5)])
+        if len(shape) > 1 and rng.random() < 0.3:
+            # several resources edited by one step (all of them, or a list of two)
+            names = [x['name'] for x in shape]
+            sel = None if rng.random() < 0.5 else rng.sample(names, 2)
+            return {'op': 'add_field', 'res': sel if sel else names, 'sel': sel, 'name': new, 'type': typ,
+                    'default': val}
         return {'op': 'add_field', 'res': r['name'], 'sel': _sel_for(rng, shape, r), 'name': new, 'type': typ,
                 'default': val}
 
     @staticmethod
     def shape(spec, shape):
-        _res(shape, spec['res'])['fields'].append([spec['name'], spec['type']])
+        for n in (spec['res'] if isinstance(spec['res'], list) else [spec['res']]):
+            _res(shape, n)['fields'].append([spec['name'], spec['type']])
         return shape
 
     @staticmethod
